@@ -1,0 +1,30 @@
+//go:build verif
+
+package tbtc
+
+import "math/big"
+
+// Verification hook (build tag verif): re-exports existing identifiers only.
+
+// VerifDeduplicator wraps the unexported event deduplicator.
+type VerifDeduplicator struct{ d *deduplicator }
+
+func VerifNewDeduplicator() *VerifDeduplicator {
+	return &VerifDeduplicator{d: newDeduplicator()}
+}
+
+func (v *VerifDeduplicator) NotifyDKGStarted(seed *big.Int) bool {
+	return v.d.notifyDKGStarted(seed)
+}
+
+func (v *VerifDeduplicator) NotifyDKGResultSubmitted(
+	seed *big.Int,
+	hash [32]byte,
+	block uint64,
+) bool {
+	return v.d.notifyDKGResultSubmitted(seed, DKGChainResultHash(hash), block)
+}
+
+func (v *VerifDeduplicator) NotifyWalletClosed(walletID [32]byte) bool {
+	return v.d.notifyWalletClosed(walletID)
+}
